@@ -29,6 +29,11 @@ windows - the chain's bytes plus room for exactly one free block, and room for t
 window with the last free block pinned so that the hole after the chain holds exactly one free block: placing the second
 un-pinned chain must see that the first one filled the hole.
 
+Family `data` (x86_32): data directives over label expressions - a table of bare labels, `label + 1`, `label - label` -
+naming labels that lie after a block whose reserved size shrinks during assembly (NOP, JZ), placed at the head of the chain,
+in a free descriptor block (`.split`) and after the shrinking block; no pin, each single pin, and descriptor + chain both
+pinned.  Oracle: every element equals its expression evaluated at the final label addresses.
+
 dst_interval in {None, roomy, tight, tight-1}: tight is the hull of the most compact layout the reference search finds,
 roomy adds 0x80 bytes of slack on both sides (the assembler reserves the *longest* encoding of every instruction while it
 places chains, so only a roomy interval exercises "patches stay inside the interval" on successful runs).
@@ -60,7 +65,8 @@ ENGINE = "enum"
 RULE = ("every text of f free blocks + a fall-through chain of c blocks with bodies from {NOP xk, JMP/JZ label, .long label, RET}, "
         "every subset of <=K pinned labels (every chain position) with addresses from a 6-value relative menu, dst_interval in "
         "{None, roomy, tight, tight-1}; plus (x86_32) the `windows` family: 2-3 exactly-sized free blocks next to a pinned chain with a "
-        "two-window dst_interval / a pinned neighbour leaving a hole for exactly one of them; non-trivial = at least one pin or a "
+        "two-window dst_interval / a pinned neighbour leaving a hole for exactly one of them, and the `data` family: directives over "
+        "label expressions (bare table, label+k, label-label) before / beside / after a block whose size shrinks; non-trivial = at least one pin or a "
         "bounded interval; distinct by (text, pins, interval)")
 LEVEL_TEXT = ("Bounded-exhaustive: every program of the lattice is parsed by parse_txt, pinned through the LocationDB and assembled by "
               "asm_resolve_final; feasibility is decided by an independent brute-force layout search that exhibits a witness layout, "
@@ -155,7 +161,17 @@ ARCHS = {
 for _a in ARCHS.values():
     _a["items"]["DZ"] = _a["items"]["D"] + _a["items"]["Z"]     # data word then a size-variable branch in one block
     _a["items"]["S"] = _a["items"]["D"]      # data word followed by `.split`: a chain end whose size the assembler knows exactly
-TERM = ("J", "R", "S")
+# data directives holding label *expressions*: ("x", template over {x} {y}, size, [value names]); the labels x, y are
+# named by prog["xy"].  The "...s" variants end with `.split` (a free descriptor block).
+X_ITEMS = {"DT": (".long {x}, {y}", ["x", "y"]),            # table of bare labels
+           "DP": (".long {y} + 1", ["y+1"]),                # label + constant
+           "DM": (".long {y} - {x}", ["y-x"])}              # difference of two labels
+X_VALUES = {"x": lambda x, y: x, "y": lambda x, y: y, "y+1": lambda x, y: y + 1, "y-x": lambda x, y: y - x}
+for _k, (_t, _v) in X_ITEMS.items():
+    ARCHS["x86_32"]["items"][_k] = [("x", _t, 4 * len(_v), _v)]
+    ARCHS["x86_32"]["items"][_k + "s"] = [("x", _t, 4 * len(_v), _v)]
+XS = tuple(k + "s" for k in X_ITEMS)
+TERM = ("J", "R", "S") + XS
 
 
 def _windows(itv):
@@ -172,13 +188,13 @@ BOUNDS = {
     "quick": {
         "x86_32": {"structures": [(1, 0), (2, 0), (3, 0), (1, 1), (2, 1)], "inner": ["N", "D", "DZ"], "last": ["N", "D", "J"],
                    "free": ["J", "R"], "refs": ["next"], "max_pins": 2, "pair_intervals": ["none", "roomy", "tight"],
-                   "windows": {"structures": [(1, 2), (2, 2), (1, 3), (2, 3)]}},
+                   "windows": {"structures": [(1, 2), (2, 2), (1, 3), (2, 3)]}, "data": True},
     },
     "thorough": {
         "x86_32": {"structures": [(1, 0), (2, 0), (3, 0), (1, 1), (2, 1), (3, 1), (1, 2), (2, 2)],
                    "inner": ["N", "D", "Z", "DZ"], "last": ["N", "D", "J"], "free": ["J", "R"], "refs": ["next", "first"],
                    "max_pins": 3, "pair_intervals": ["none", "roomy", "tight", "tight-1"],
-                   "windows": {"structures": [(1, 2), (2, 2), (3, 2), (1, 3), (2, 3), (3, 3)]}},
+                   "windows": {"structures": [(1, 2), (2, 2), (3, 2), (1, 3), (2, 3), (3, 3)]}, "data": True},
         "arml": {"structures": [(1, 0), (2, 0), (3, 0), (1, 1), (2, 1), (3, 1)], "inner": ["N", "D", "Z"], "last": ["N", "D", "J"],
                  "free": ["J", "R"], "refs": ["next"], "max_pins": 2, "pair_intervals": ["none", "roomy", "tight"]},
         "mips32l": {"structures": [(1, 0), (2, 0), (3, 0), (1, 1), (2, 1), (3, 1)], "inner": ["N", "D", "Z"], "last": ["N", "D", "J"],
@@ -205,6 +221,8 @@ def programs(arch, par):
                         out.append({"arch": arch, "bodies": list(fb) + list(inner) + [last], "nfree": f, "ref": ref})
     if "windows" in par:
         out += window_programs(arch, par["windows"])
+    if par.get("data"):
+        out += data_programs(arch)
     return out
 
 
@@ -229,8 +247,11 @@ def text_of(prog):
     for i, kind in enumerate(prog["bodies"]):
         lines.append("%s:" % labs[i])
         for el in a["items"][kind]:
-            lines.append("    " + el[1].format(ref=labs[ref_of(prog, i, el[0] == "d")]))
-        if kind in TERM and (a["split"] or kind == "S") and i + 1 < len(prog["bodies"]):
+            if el[0] == "x":
+                lines.append("    " + el[1].format(x=labs[prog["xy"][0]], y=labs[prog["xy"][1]]))
+            else:
+                lines.append("    " + el[1].format(ref=labs[ref_of(prog, i, el[0] == "d")]))
+        if kind in TERM and (a["split"] or kind == "S" or kind in XS) and i + 1 < len(prog["bodies"]):
             lines.append(".split")
     return "\n".join(lines) + "\n"
 
@@ -265,7 +286,7 @@ def _block_sizes(prog, choice_of):
     for bi, kind in enumerate(prog["bodies"]):
         s = []
         for ei, el in enumerate(a["items"][kind]):
-            if el[0] == "d":
+            if el[0] in ("d", "x"):
                 s.append(el[2])
             else:
                 s.append(el[4][choice_of.get((bi, ei), 0)][0])
@@ -416,7 +437,7 @@ def cases_windows(prog):
                free block; dst_interval = one window ending exactly after room for the remaining free blocks"""
     a = ARCHS[prog["arch"]]
     f = prog["nfree"]
-    sz = [sum(el[2] if el[0] == "d" else el[4][0][0] for el in a["items"][k]) for k in prog["bodies"]]
+    sz = [sum(el[2] if el[0] in ("d", "x") else el[4][0][0] for el in a["items"][k]) for k in prog["bodies"]]
     chain = list(range(f, len(sz)))
     csize = sum(sz[b] for b in chain)
     out = []
@@ -432,10 +453,35 @@ def cases_windows(prog):
     return out
 
 
+def data_programs(arch):
+    """Data directives over label expressions next to an instruction whose reserved size shrinks (NOP 3 -> 1, JZ 15 -> 2):
+    the directive K in {DT bare table, DP label + 1, DM label - label} names labels x, y lying after the shrinking block M,
+      head   K | M | N        the directive heads the chain (it stays put when the chain is pinned at its head or floats)
+      free   Ks || M | N | N  the directive is a free descriptor block (`.split`), pinned or floating
+      mid    M | K | N        the directive follows the shrinking block (it moves with its labels)"""
+    out = []
+    for k in X_ITEMS:
+        for m in ("N", "Z"):
+            out.append({"arch": arch, "bodies": [k, m, "N"], "nfree": 0, "ref": "next", "fam": "data", "xy": [1, 2]})
+            out.append({"arch": arch, "bodies": [k + "s", m, "N", "N"], "nfree": 1, "ref": "next", "fam": "data", "xy": [2, 3]})
+            out.append({"arch": arch, "bodies": [m, k, "N"], "nfree": 0, "ref": "next", "fam": "data", "xy": [0, 2]})
+    return out
+
+
+def cases_data(prog):
+    m = len(prog["bodies"])
+    pinsets = [{}] + [{i: BASE} for i in range(m)]
+    if prog["nfree"]:
+        pinsets += [{0: BASE, 1: BASE + 0x20}, {0: BASE + 0x20, 1: BASE}]
+    return [(pins, "none", None, search(prog, pins, None)) for pins in pinsets]
+
+
 def cases_of(prog, par):
     """-> list of (pins, interval kind, interval or None, witness or None)"""
     if prog.get("fam") == "windows":
         return cases_windows(prog)
+    if prog.get("fam") == "data":
+        return cases_data(prog)
     out = []
     for pins in pin_sets(prog, par):
         w = search(prog, pins, None)
@@ -646,6 +692,27 @@ def evaluate(prog, pins, ikind, itv, witness, parsed=None):
         at = final[i]
         tgt = final[ref_of(prog, i)]
         for el in a["items"][kind]:
+            if el[0] == "x":
+                xa, ya = final[prog["xy"][0]], final[prog["xy"][1]]
+                miss = False
+                for j, vname in enumerate(el[3]):
+                    got = [image.get(at + 4 * j + b) for b in range(4)]
+                    if None in got:
+                        bad("block-bytes-missing", "data of block %s at %#x is not patched" % (labs[i], at + 4 * j))
+                        miss = True
+                        break
+                    val = int.from_bytes(bytes(got), "little")
+                    want = X_VALUES[vname](xa, ya) & 0xffffffff
+                    if val != want:
+                        bad("data-expression-unresolved:%s" % {"x": "label", "y": "label", "y+1": "label+k", "y-x": "label-label"}[vname],
+                            "block %s: element %d of `%s` at %#x is %#x, but %s=%#x and %s=%#x give %#x"
+                            % (labs[i], j, el[1].format(x=labs[prog["xy"][0]], y=labs[prog["xy"][1]]).strip(), at + 4 * j, val,
+                               labs[prog["xy"][0]], xa, labs[prog["xy"][1]], ya, want))
+                if miss:
+                    break
+                used.update(range(at, at + el[2]))
+                at += el[2]
+                continue
             if el[0] == "d":
                 size = el[2]
                 dtgt = final[ref_of(prog, i, True)]
